@@ -59,6 +59,29 @@ def gen_cons(rnd, idx, force_sat=None):
         decls.append("bool %s;" % b)
     rnd.shuffle(decls)
     stmts = decls + [pr.expr(e) + ";" for e in cons]
+    # disjunction statements: blocks of simple bounds on shared expressions (a block may be contradictory in itself; atoms recur across blocks)
+    for _ in range(rnd.choice([0, 0, 1, 1, 2])):
+        v = ("id", [rnd.choice(reals)])
+        w = ("id", [rnd.choice(reals)])
+        atoms = []
+        for _k in range(rnd.randint(2, 4)):
+            x = rnd.choice([v, v, w, ("add", [v, w]), ("sub", [v, w])])
+            atoms.append((rnd.choice(["leq", "geq", "leq", "geq", "lt", "gt", "eq"]), x, num(rnd.randint(-3, 12))))
+        blocks = []
+        for _k in range(rnd.randint(2, 3)):
+            blocks.append([rnd.choice(atoms) for _j in range(rnd.randint(1, 3))])
+        if sat_mode:
+            try:
+                good = [a for a in atoms if ev(a, planted) is True]
+            except riddle.Unknown:
+                continue
+            if not good:
+                continue
+            blocks[rnd.randrange(len(blocks))] = [rnd.choice(good) for _j in range(rnd.randint(1, 2))]
+        e = ("or", [("and", blk) if len(blk) > 1 else blk[0] for blk in blocks])
+        cons.append(e)
+        costs = rnd.random() < 0.4
+        stmts.append(" or ".join("{ " + " ".join(pr.expr(a) + ";" for a in blk) + " }" + (" [%d.0]" % rnd.randint(1, 9) if costs else "") for blk in blocks))
     return {"family": "cons", "id": "cons-%d" % idx, "text": _layout(rnd, stmts), "reals": reals, "bools": bools, "kinds": kinds,
             "cons": cons, "planted": planted if sat_mode else None}
 
